@@ -403,6 +403,12 @@ func (obj *DenseInt8VectorJointIterator) Ok() bool {
          !(obj.s2 == nil || obj.s2.GetFloat64() == 0.0)
 }
 func (obj *DenseInt8VectorJointIterator) Next() {
+  // skip positions where all operands are zero; stop when all
+  // iterators are exhausted
+  for obj.next() && !obj.Ok() {
+  }
+}
+func (obj *DenseInt8VectorJointIterator) next() bool {
   ok1 := obj.it1.Ok()
   ok2 := obj.it2.Ok()
   obj.s1.ptr = nil
@@ -429,6 +435,7 @@ func (obj *DenseInt8VectorJointIterator) Next() {
   } else {
     obj.s2 = ConstInt8(0.0)
   }
+  return ok1 || ok2
 }
 func (obj *DenseInt8VectorJointIterator) GetConst() (ConstScalar, ConstScalar) {
   if obj.s1.ptr == nil {
